@@ -688,6 +688,105 @@ theorem numbers_decode_value (x : I64) : numbersOf (shiftTerms (f2i x)) = [x] :=
   rfl
 end Decode
 
+/-! ## 12. Filtering sources (search/aggregations/filter.go)
+
+In the model a source is a function of the match; `filterSrc p src` is the inner source's values through the filter,
+and nothing a source does can change what another reader of the same match sees (that the Go sources do not write
+through a slice they got from the match or from another source is the regenerated fact `sources_do_not_write_through`). -/
+section Filter
+variable {μ β σ ρ S : Type}
+
+/-- the values a filtering source yields over all matches = the inner source's values that pass the filter, in order -/
+theorem filter_source_values (p : β → Bool) (src : μ → List β) (ms : List μ) :
+    allVals (filterSrc p src) ms = (allVals src ms).filter p := by
+  induction ms with
+  | nil => rfl
+  | cons m ms ih =>
+    simp only [allVals, List.flatMap_cons, List.filter_append] at *
+    rw [ih]; rfl
+
+/-- **every single-value metric over a filtering source is exact over the values that pass the filter**
+(count, sum, min, max: `svm` with the metric's step) -/
+theorem filter_source_exact {α : Type} (init : α) (comp : α → α → α) (p : α → Bool) (src : μ → List α) (ms : List μ) :
+    (svm init comp (filterSrc p src)).run ms = ((allVals src ms).filter p).foldl comp init := by
+  rw [svm_run, filter_source_values]
+
+theorem sum_filter_eq {α : Type} [AddMonoid α] (p : α → Bool) (src : μ → List α) (ms : List μ) :
+    (sumCalc (filterSrc p src)).run ms = ((allVals src ms).filter p).sum := by
+  rw [sum_eq, filter_source_values]
+
+theorem avg_filter_eq {α : Type} [DivisionRing α] (p : α → Bool) (src : μ → List α) (ms : List μ) :
+    (avgCalc (filterSrc p src)).run ms =
+      ((allVals src ms).filter p).sum / (((allVals src ms).filter p).length : α) := by
+  rw [avg_eq, filter_source_values]
+
+/-- a sketch over a filtering source is fed exactly the values that pass the filter -/
+theorem sketch_filter_fed_exactly (empty : S) (insert : S → β → S) (p : β → Bool) (src : μ → List β) (ms : List μ) :
+    (sketchCalc empty insert (filterSrc p src)).run ms = ((allVals src ms).filter p).foldl insert empty := by
+  rw [sketch_fed_exactly, filter_source_values]
+
+/-- a terms aggregation over a filtering source: bucket `t` exists only for values passing the filter, and then it
+has consumed exactly the matches having `t` (as without the filter) -/
+theorem occ_filterSrc (p : Term → Bool) (src : μ → List Term) (t : Term) (ms : List μ) :
+    occ (filterSrc p src) t ms = if p t = true then occ src t ms else [] := by
+  induction ms with
+  | nil => simp [occ]
+  | cons m ms ih =>
+    rw [occ_cons, occ_cons, ih]
+    by_cases h : p t = true
+    · simp only [h, if_true, filterSrc]
+      rw [List.count_filter h]
+    · have hc : List.count t (filterSrc p src m) = 0 := by
+        apply List.count_eq_zero.mpr
+        intro hm
+        exact h (List.mem_filter.mp hm).2
+      simp [h, hc]
+
+/-- a range aggregation over a filtering source counts the values in range that pass the filter -/
+theorem valuesIn_filterSrc {R : Type} (p : β → Bool) (src : μ → List β) (mem : R → β → Bool) (r : R) (ms : List μ) :
+    valuesIn (filterSrc p src) mem r ms = ((allVals src ms).filter p).countP (mem r) := by
+  unfold valuesIn; rw [filter_source_values]
+
+/-- **a second reader of the same field is not disturbed by the filter**: under a terms aggregation over
+`FilterText(Field(f), p)`, a nested sketch over the plain `Field(f)` is fed ALL values of `f` of the matches in the
+bucket (filtered-out ones included), each match's values once per … match, in match order -/
+theorem nested_reader_sees_unfiltered (p : Term → Bool) (src : μ → List Term) (size : Nat) (empty : S)
+    (insert : S → Term → S) (cnt : S → Nat) (sort : List (Term × S) → List (Term × S)) (ms : List μ) (t : Term) (s : S)
+    (h : (t, s) ∈ ((termsCalc (filterSrc p src) size (sketchCalc empty insert src) cnt sort).feed ms).buckets) :
+    p t = true ∧ s = (allVals src (occ src t ms)).foldl insert empty := by
+  obtain ⟨hne, hs⟩ := terms_bucket_of_mem _ _ _ _ _ ms t s h
+  rw [occ_filterSrc] at hne hs
+  by_cases hp : p t = true
+  · refine ⟨hp, ?_⟩
+    rw [if_pos hp] at hs
+    rw [hs]
+    simp only [Calc.feed, sketchCalc, allVals, foldl_flatMap']
+  · rw [if_neg hp] at hne; exact absurd rfl hne
+end Filter
+
+/-- what the source of a request yields: the field's values, through the predicate when the source is a filtering one -/
+theorem source_spec_values {α : Type} [LT α] [LE α] [DecidableLT α] [DecidableLE α] (s : NSrc α) (t : TSrc) (d : DSrc)
+    (ms : List (DocVals α)) :
+    allVals (numSrc s) ms = (match s.pred with
+        | none => allVals (fun x => x.num s.field) ms
+        | some q => (allVals (fun x => x.num s.field) ms).filter q.keep) ∧
+    allVals (txtSrc (α := α) t) ms = (match t.pred with
+        | none => allVals (fun x => x.txt t.field) ms
+        | some q => (allVals (fun x => x.txt t.field) ms).filter q.keep) ∧
+    allVals (dateSrc (α := α) d) ms = (match d.pred with
+        | none => allVals (fun x => x.date d.field) ms
+        | some q => (allVals (fun x => x.date d.field) ms).filter q.keep) := by
+  refine ⟨?_, ?_, ?_⟩
+  · unfold numSrc; cases s.pred with
+    | none => rfl
+    | some q => exact filter_source_values _ _ _
+  · unfold txtSrc; cases t.pred with
+    | none => rfl
+    | some q => exact filter_source_values _ _ _
+  · unfold dateSrc; cases d.pred with
+    | none => rfl
+    | some q => exact filter_source_values _ _ _
+
 /-! ## 11. Facts about the code that no run can observe, regenerated from the source (`go/extract/c16.go`) -/
 
 /-- every `Calculator()` of search/aggregations builds the calculator's mutable state itself: no field of the
@@ -700,6 +799,12 @@ theorem calculators_are_fresh : BlugeGen.C16.sharedMutable = [] := by decide
 theorem calculator_types_known :
     ∀ t ∈ ["CardinalityMetric", "DateRangeAggregation", "QuantilesMetric", "RangeAggregation", "SingleValueMetric",
            "TermsAggregation", "WeightedAvgMetric"], t ∈ BlugeGen.C16.calculatorTypes := by decide
+
+/-- no value source of search/aggregations or search/source.go re-slices, assigns into, appends to, copies into or sorts a
+slice it did not create (a parameter, `f.source.Values(match)`, `match.DocValues(f)` …): the model's sources are
+functions of the match, and `nested_reader_sees_unfiltered` / `all_run` rely on a reader not changing what the next
+reader of the same hit sees -/
+theorem sources_do_not_write_through : BlugeGen.C16.sourceWritesThrough = [] := by decide
 
 /-- `collectSingle` is: load doc values → compute sort → `bucket.Consume` → search-after filter →
 lowest-outside-results shortcut → store add — the order `Bluge.Agg.collectSingle` transcribes and `agg_sees_all` is about -/
